@@ -327,3 +327,5 @@ def fm_repr(a: Any) -> str:
 
 
 FINDINGS: dict[str, Any] = {}
+
+LEVEL_NOTE += ' Rounds 13-14: sub-expressions built under the enclosing name, inputs in different time zones, string formulas for non-power metrics.'
